@@ -429,6 +429,18 @@ def c_ghost_axioms(ctx, spec):
                     if y is not z and depth[id(z)] >= depth[id(y)] and anc(z, depth[id(y)]) is y:
                         if (pos[id(y)] > pos[id(z)]) != post:
                             return ("ancestors before (after) descendants", (pos[id(y)], pos[id(z)]))
+    # mh_def: MH(x) = max over the tokens below x of depth(t) - depth(x), attained by some token of T(x)
+    for x in nodes:
+        T = leaves(x)
+        diffs = [depth[id(t)] - depth[id(x)] for t in T]
+        mh = max(diffs)
+        if not (mh >= 0 and mh in diffs and all(d <= mh for d in diffs)):
+            return ("mh_def: MH(x) is the maximal depth difference to a token of T(x), attained", diffs)
+        # ... and it is the height of x (longest downward path to a token)
+        def hh(n):
+            return 0 if not n.children else 1 + max(hh(c) for c in n.children)
+        if hh(x) != mh:
+            return ("mh_def: MH(x) == longest downward path from x to a token", (hh(x), mh))
     # wf_theory_tokens: a rank (height) that strictly decreases towards the children, NL / SNL token counts,
     # least tokens of two stored children carry different numbers, distinct tokens carry distinct numbers
     hgt = {}
